@@ -59,6 +59,8 @@ def check_events(M, C, sizes, tails, candidates, base_case, pfx="anyL", domain=N
 
     from engine import subst
 
+    if any(len(e["loops"]) > 1 for e in C.events):
+        raise alg.Undecided("nested loops with symbolic bounds: the ordering argument of the read obligations covers single loops only")
     allwrites = [e for e in C.events if e["kind"] == "write"]
     writes = [e for e in allwrites if e.get("tid", 0) == tid]
     reads = [e for e in C.events if e["kind"] == "read" and e.get("wtid", 0) == tid]
